@@ -1336,3 +1336,84 @@ func ruleU3(r *Run) {
 		r.Undec("selection of the aliasing converters", fd.Pos(), "no return of ptrCopy/sliceCopy/mapCopy/arrayCopy/dataCopy found in GetConverter")
 	}
 }
+
+// ---------------------------------------------------------------------------------------------------
+// V10 the completion of a split character stops exactly when the missing bytes have arrived
+// (V6 gains the clause: ResetReader / ResetBytes restart the window unconditionally)
+
+func init() {
+	register("V10", "in readStringAsBytes the loop that completes a character split by a read leaves as soon as the window holds AT LEAST the missing bytes: the comparison between the bytes available (tail - head) and the missing count (-remains) is non-strict - with a strict one a read that delivers exactly the missing bytes of the last character asks for more input and reports io.EOF for a complete value", 1, ruleV10)
+}
+
+func ruleV10(r *Run) {
+	p := r.P
+	fd, pkg := p.DeclOf("io", "Decoder.readStringAsBytes")
+	if fd == nil {
+		r.Undec("io.Decoder.readStringAsBytes", 0, "not found")
+		return
+	}
+	info := pkg.TypesInfo
+	defs := localDefs(info, fd.Body)
+	headF, tailF := p.LookupField("io", "Decoder", "head"), p.LookupField("io", "Decoder", "tail")
+	// "available": tail - head, directly or through a local
+	isAvail := func(e ast.Expr) bool {
+		e = ast.Unparen(e)
+		if o := identObj(info, e); o != nil {
+			if d, ok := defs[o]; ok && d != nil {
+				e = ast.Unparen(d)
+			}
+		}
+		be, ok := e.(*ast.BinaryExpr)
+		return ok && be.Op == token.SUB && fieldOf(info, be.X) == tailF && fieldOf(info, be.Y) == headF && tailF != nil
+	}
+	// "remains": the local defined as length - off (it is negative while bytes are missing)
+	var remains types.Object
+	ast.Inspect(fd.Body, func(m ast.Node) bool {
+		if as, ok := m.(*ast.AssignStmt); ok && as.Tok == token.DEFINE && len(as.Lhs) == 1 && len(as.Rhs) == 1 {
+			if be, ok := ast.Unparen(as.Rhs[0]).(*ast.BinaryExpr); ok && be.Op == token.SUB {
+				if id, ok := as.Lhs[0].(*ast.Ident); ok && refName(id.Name) == "remains" {
+					remains = info.Defs[id]
+				}
+			}
+		}
+		return true
+	})
+	if remains == nil {
+		r.Undec("completion of a split character", fd.Pos(), "the local `remains` was not found")
+		return
+	}
+	n := 0
+	ast.Inspect(fd.Body, func(m ast.Node) bool {
+		be, ok := m.(*ast.BinaryExpr)
+		if !ok {
+			return true
+		}
+		switch be.Op {
+		case token.GEQ, token.GTR, token.LEQ, token.LSS:
+		default:
+			return true
+		}
+		// avail OP -remains   or   -remains OP avail
+		negRem := func(e ast.Expr) bool {
+			u, ok := ast.Unparen(e).(*ast.UnaryExpr)
+			return ok && u.Op == token.SUB && identObj(info, u.X) == remains
+		}
+		var op token.Token
+		switch {
+		case isAvail(be.X) && negRem(be.Y):
+			op = be.Op
+		case negRem(be.X) && isAvail(be.Y):
+			op = map[token.Token]token.Token{token.GEQ: token.LEQ, token.GTR: token.LSS, token.LEQ: token.GEQ, token.LSS: token.GTR}[be.Op]
+		default:
+			return true
+		}
+		n++
+		// the comparison either says "enough" (avail >= missing) or "not enough" (avail < missing): both include equality on the enough side
+		okOp := op == token.GEQ || op == token.LSS
+		r.Check(okOp, fmt.Sprintf("completion of a split character #%d", n), be.Pos(), "available >= missing ends the wait", "`"+types.ExprString(be)+"` treats a read that delivers exactly the missing bytes as not enough: the loop asks for more input although the character (and with it the string) is complete - at the end of the stream that is io.EOF for a correctly decoded value, and only for that fragmentation")
+		return true
+	})
+	if n == 0 {
+		r.Undec("completion of a split character", fd.Pos(), "no comparison between the bytes available and the missing count found")
+	}
+}
